@@ -31,6 +31,11 @@ import (
 const (
 	maxNickLen    = "30"
 	maxChannelLen = "32"
+	// maxUserLen is the maximum number of characters of a user name. Longer
+	// user names are truncated (other IRC servers do the same, see USERLEN),
+	// so that the prefix nick!user@host always leaves room for the command
+	// within the 510 bytes of an IRC line.
+	maxUserLen = 30
 
 	// Message format according to RFC2812, section 2.3.1
 	// A-Z / a-z
@@ -348,6 +353,18 @@ func (i *IRCServer) ExpireSessions() []*robust.Message {
 		})
 	}
 	return deletes
+}
+
+// truncateUsername cuts |username| after maxUserLen characters.
+func truncateUsername(username string) string {
+	n := 0
+	for idx := range username {
+		if n == maxUserLen {
+			return username[:idx]
+		}
+		n++
+	}
+	return username
 }
 
 // IsValidNickname returns true if the provided nickname is valid according to
